@@ -103,7 +103,8 @@ CHECKS = {
         "level": "fault_enumeration",
         "assumptions": ["allocation is measured as the TotalAlloc delta around one Unpack with a generous bound (16*limit + 16*len(input) + 24 MiB); announcements used for detection are >= 64 MiB",
                         "decompression bombs (a frame within the read limit whose gzip payload inflates beyond it) are outside the generated classes",
-                        "liveness: 20 s bound + goroutine dump"],
+                        "liveness: 20 s bound + goroutine dump",
+                        "session-level read limits are 512 B .. 1 MiB: under the default 1 GiB limit an announcement just below it is a legitimate 1 GiB buffer per case, which only makes the liveness bound depend on machine load"],
         "runs": [
             {"pkg": "wire", "run": "^TestC06(Raw|JSON|PB|HTTP)Unpack$", "quick": 1500, "thorough": 60000, "shards_thorough": 8},
             {"pkg": "wire", "run": "^TestC06HTTPAnnounce$", "quick": 300, "thorough": 5000, "shards_thorough": 2},
